@@ -227,12 +227,12 @@ PROPS = {
         "explanation": "theorems on the union specification and the validity predicate; point-wise correspondence of the real operator",
     },
     "C09": {
-        "trusted_base": COMMON_TB + ["specification-level model (point-set semantics, validity predicates); the Rust 2-D state machines are not transliterated: agreement is established point by point on a grid of representative instants/positions over an 8 x 4 cell universe"],
+        "trusted_base": COMMON_TB + ["point-set specification + validity predicates, AND a transliteration of Ranges2D::make_consistent (Model/Consistent2D.lean: the HashSet of open entries is a duplicate-free list, the parallel reduce is a fold — both proved irrelevant to the result; ties of the unstable sort are irrelevant because segments are emitted only when the coordinate advances), validated by EXACT agreement of the entries with create_from_time_ranges_spatial_coverage on every generated list (op st_mkc); the streaming builders are not transliterated (they sit on the broken ST union): point-wise agreement on the grid"],
         "assumptions": COMMON_ASSUME + ["positions enter as space cells (the hash of a position is cdshealpix's)", "the store wrappers are thin and not driven separately"],
         "rule": "three passes (time depth 2; depth 61 from 0; depth 61 near the top of the time domain) of random observation lists (0..6 (time range, cell) observations over 8 x 4 cells; four construction paths incl. the range-2D result converted by time_space_iter: overlapping and touching time ranges, simultaneous observations at different positions, first observation "
                 "not the earliest, duplicates) x buffer capacities {1,2,3,100}: both streaming builders and the range-2D path (create_from_time_ranges_spatial_coverage) against the specification on "
                 "the grid. distinct_nontrivial = distinct op lines with more than one observation.",
-        "explanation": "theorems: specification = union of the products, order/duplicate independence, counterexample for the original make_consistent seed; point-wise correspondence of the three real paths",
+        "explanation": "theorems: specification = union of the products, order/duplicate independence, counterexample for the original make_consistent seed, and the transliterated make_consistent = union of the products + valid flat form for all entry lists; point-wise correspondence of the real paths + exact entries of the range-2D path",
     },
     "C10": {
         "trusted_base": COMMON_TB + ["point-set specification + validity predicates, AND a transliteration of Ranges2D::merge (Model/Merge2D.lean: the two cursors with parity are rendered as event lists carrying the state after each bound; the two output stacks zipped at the end as one stack of closed segments plus the open one): the rendering is validated by EXACT agreement of the entries with the real union / intersection / difference on every generated pair (op st_merge); the two folds are modelled at code level too"],
